@@ -188,6 +188,12 @@ def _patch_float_to_int():
 
     def _int(val=0, *a, **k):
         with NoTracing():
+            import numpy as _np
+
+            if isinstance(val, _np.ndarray) and val.dtype == object and val.size == 1:
+                val = val.reshape(-1)[0]  # int(0-d object array): unwrap so that the proxy stays symbolic
+            if isinstance(val, B.SymbolicInt) and not a and not k:
+                return val
             sym_float = isinstance(val, B.RealBasedSymbolicFloat) and not a and not k
             plain = not sym_float and not any(
                 type(v).__module__.startswith("crosshair") for v in (val,) + a + tuple(k.values()))
